@@ -139,6 +139,14 @@ EXTRA += [
         {"k": "set", "n": "before", "e": {"k": "deref", "e": _V("c")}},
         {"k": "asg", "op": "=", "l": _V("c"), "r": I(1000)},
         {"k": "tup", "es": [_V("before"), {"k": "deref", "e": _V("c")}]}]},
+    # a callee whose static type is a union of functions over structs with the same field names and different field types:
+    # whether the call is accepted is the same at every parse (the meet of the parameter types does not depend on the order
+    # in which two field maps happen to be walked)
+    {"id": "det-union-callee-struct-params", "prog": [
+        {"k": "fndecl", "n": "g", "ps": [{"n": "s", "ty": T("struct", fs=[["v", T("int")], ["w", T("int")], ["z", T("int")]])}], "r": T("int"), "body": [{"k": "ret", "e": I(1)}]},
+        {"k": "fndecl", "n": "h", "ps": [{"n": "s", "ty": T("struct", fs=[["v", T("multi", ms=[T("int"), T("float")])], ["w", T("int")], ["z", T("multi", ms=[T("int"), T("string")])]])}], "r": T("int"), "body": [{"k": "ret", "e": I(2)}]},
+        {"k": "set", "n": "f", "e": {"k": "if", "c": {"k": "hide", "ty": T("bool"), "e": lit({"k": "bool", "v": True})}, "t": {"k": "block", "body": [_V("g")]}, "f": {"k": "block", "body": [_V("h")]}}},
+        {"k": "call", "f": _V("f"), "args": [{"k": "struct", "fs": [["v", I(1)], ["w", I(2)], ["z", I(3)]]}]}]},
     _union_operand(1, [{"k": "for", "n": "x", "e": _V("it"), "b": {"k": "block", "body": []}}, {"k": "ret", "e": I(1)}]),
     _union_operand(2, [{"k": "ret", "e": {"k": "reduce", "it": _V("it"), "init": I(0), "f": _ADD}}]),
     _union_operand(3, [{"k": "ret", "e": {"k": "collect", "it": {"k": "map", "it": _V("it"), "f": _ID}}}]),
